@@ -23,7 +23,7 @@ type AssertClause struct {
 	Before bool
 	Each   bool // before-each: at every innermost statement containing the fragment
 	Text   string
-	Assume bool // "assume @label after|before <fragment> :: expr": assumed at that point, not proved (listed in the evidence)
+	Assume bool   // "assume @label after|before <fragment> :: expr": assumed at that point, not proved (listed in the evidence)
 	Ghost  string // "ghostat @label after|before <fragment> :: name = expr": ghost counter update at that point
 }
 
